@@ -745,7 +745,10 @@ type followException struct {
 // guardedByNotSymlink: the call is unreachable when a symlink-mode test says
 // "is a symlink".
 func guardedByNotSymlink(c *Ctx, call ssa.CallInstruction) (bool, string) {
-	fn := call.Parent()
+	return onAnchors(c, call, func(fn *ssa.Function) (bool, string) { return guardedByNotSymlinkIn(c, fn, call) })
+}
+
+func guardedByNotSymlinkIn(c *Ctx, fn *ssa.Function, call ssa.CallInstruction) (bool, string) {
 	x := c.explorer(fn)
 	keys := modeBitTests(c, fn, x, modeSymlink)
 	if len(keys) == 0 {
@@ -767,7 +770,10 @@ func guardedByNotSymlink(c *Ctx, call ssa.CallInstruction) (bool, string) {
 
 // dominatedByRemoveOfSamePath: an os.Remove of the same path expression precedes.
 func dominatedByRemoveOfSamePath(c *Ctx, call ssa.CallInstruction) (bool, string) {
-	fn := call.Parent()
+	return onAnchors(c, call, func(fn *ssa.Function) (bool, string) { return dominatedByRemoveOfSamePathIn(c, fn, call) })
+}
+
+func dominatedByRemoveOfSamePathIn(c *Ctx, fn *ssa.Function, call ssa.CallInstruction) (bool, string) {
 	want := c.describeOperand(call.Common().Args[0])
 	ok, _, und := c.Precedes(fn, nil, nil, func(in ssa.Instruction) bool {
 		if !c.P.IsCallTo(in, "os.Remove", "os.RemoveAll") {
@@ -798,11 +804,12 @@ var r036Exceptions = map[string]followException{
 }
 
 func guardedByLstatSymlink(c *Ctx, call ssa.CallInstruction) (bool, string) {
-	fn := call.Parent()
-	if len(c.P.CallsTo(fn, "os.Lstat")) == 0 {
-		return false, "no os.Lstat in " + c.name(fn)
-	}
-	return guardedByNotSymlink(c, call)
+	return onAnchors(c, call, func(fn *ssa.Function) (bool, string) {
+		if len(c.P.CallsTo(fn, "os.Lstat")) == 0 {
+			return false, "no os.Lstat in " + c.name(fn)
+		}
+		return guardedByNotSymlinkIn(c, fn, call)
+	})
 }
 
 func r03_6(c *Ctx, rule string) {
